@@ -410,6 +410,34 @@ def run(ctx):
     from . import common
     cg = res.clause('C17.g', 'R-PROV', 'sampling rate / enforced-sampling / skip options are stored as the caller gave them', floor=3)
     common.ctor_params_clause(ctx, res, cg, 'C17', 'C17.g', 'RecordingParameters')
+    # ... and the object a caller registers is the caller's (possibly registered for several classes / reused): the registrar does not write to it
+    tr17 = roles.recorder_cls if hasattr(roles, 'recorder_cls') else repo.cls('TapeRecorder')
+    for m_ in tr17.methods.values():
+        stores_ = [n for n in ast.walk(m_.node) if isinstance(n, ast.Subscript) and isinstance(n.ctx, ast.Store) and _self_attr(n.value) == roles.class_params]
+        if not stores_:
+            continue
+        given = {a.arg for f_ in ast.walk(m_.node) if isinstance(f_, (ast.FunctionDef, ast.Lambda)) for a in f_.args.args if a.arg not in ('self', 'cls')}
+        changed_ = True
+        while changed_:
+            changed_ = False
+            for n in ast.walk(m_.node):
+                if isinstance(n, ast.Assign) and len(n.targets) == 1 and isinstance(n.targets[0], ast.Name) and n.targets[0].id not in given:
+                    v_ = n.value
+                    srcs_ = [v_] if not isinstance(v_, (ast.BoolOp, ast.IfExp)) else (v_.values if isinstance(v_, ast.BoolOp) else [v_.body, v_.orelse])
+                    if any(isinstance(x, ast.Name) and x.id in given for x in srcs_):
+                        given.add(n.targets[0].id)
+                        changed_ = True
+        writes_ = [n for n in ast.walk(m_.node) if
+                   (isinstance(n, ast.Call) and isinstance(n.func, ast.Name) and n.func.id in ('setattr', 'delattr') and n.args and
+                    isinstance(n.args[0], ast.Name) and n.args[0].id in given) or
+                   (isinstance(n, ast.Attribute) and isinstance(n.ctx, (ast.Store, ast.Del)) and isinstance(n.value, ast.Name) and n.value.id in given) or
+                   (isinstance(n, ast.Call) and isinstance(n.func, ast.Attribute) and n.func.attr == 'update' and isinstance(n.func.value, ast.Attribute) and
+                    n.func.value.attr == '__dict__' and isinstance(n.func.value.value, ast.Name) and n.func.value.value.id in given)]
+        cg.instance('%s registers the parameters without writing to the object it was given' % m_.name, m_.qualname, not writes_)
+        for n in writes_[:1]:
+            res.add(Finding('C17', 'C17.g', 'R-PROV', m_.file, m_.qualname, n.lineno, norm(n)[:80],
+                            '%s writes to the parameters object it was handed (`%s`): the same object registered for another class - or kept by the caller '
+                            'as its defaults - changes with it, so that class is sampled / skipped by options it was never given' % (m_.name, norm(n)[:60])))
     # ---- C17.i one decision per recording: the storage-level decision is taken inside the cassette's store routine, which the public save
     # wrapper runs exactly once (a retry would draw again and shift every later decision); the decision keeps nothing between recordings
     ci17 = res.clause('C17.i', 'R-TYPESTATE', 'the store routine (and its sampling decision) runs once per save and keeps no state', floor=2)
@@ -429,6 +457,7 @@ def run(ctx):
                         'recording is decided twice and every later decision uses a shifted draw - the kept set no longer follows the seeded sequence'))
     from . import common as _cm17b
     _cm17b.stateless_methods_clause(res, ci17, 'C17', 'C17.i', s3, [f3.name], 'each recording is judged by the calculator\'s answer for it')
+    _cm17b.import_clauses(ctx, res, 'C12', ['C12.a'], 'C17', 'C17.j', 'R-LOCKSET', 'a recording that was decided to be kept reaches the storage: nothing but the flusher takes requested operations out of the asynchronous buffer', floor=2)
     return res
 
 
